@@ -524,3 +524,4 @@ def r9_transfer_on_behalf_of_consumer(ctx):
 
 RULES.append(r9_transfer_on_behalf_of_consumer)
 RULES.append(r10_single_fetch)
+RULES.append(lazy("C03", "r8_initial_state_owned", "the purge tracker must be a private copy: consumers removed during one run would be missing when the same preschedule is used again, and their inputs purged while they are still to run"))
